@@ -1,6 +1,7 @@
 import Props.Obligations
 import Ctap.Utf8Thm
 import Ctap.LeafThm
+import Ctap.MsgThm
 /-
   C13 — over-long names are cut on a character boundary; over-long icons are dropped.
 -/
@@ -68,6 +69,257 @@ theorem name_field (key : List Byte) (ser : SerMode) (i : Nat) (s r : Input) (sl
     all_goals (intro h; have := congrArg UInt8.toNat h; simp at this; omega)
   simp only [hun, Bool.false_eq_true, if_false, Mode.acceptsNull, Bool.true_and, decide_eq_true_eq, hhead]
   simp only [decode, decLeaf, decText_encText s r hl, hv, if_true, name_reader s hv]
+
+/-! #### G-PREFIX at message level: an over-long name changes nothing else
+
+  The statements above are per member.  Composed with the any-order map-loop theorems
+  (`text_message`, `indexed_message`) they give the whole-message form: a user / relying-party
+  entity — and a request containing it — in which a name of *any* length appears decodes to exactly
+  what the same message decodes to when the name is cut beforehand.  Members before and after the
+  name, unknown members, their order: all unaffected. -/
+
+theorem truncated_idem (cap : Nat) (s : List Byte) (hv : validUtf8 s = true) :
+    truncated cap (truncated cap s) = truncated cap s := by
+  have h := (truncated_spec cap s hv).2.1
+  generalize truncated cap s = t at h ⊢
+  unfold truncated
+  simp only [if_pos h]
+
+theorem truncated_valid (cap : Nat) (s : List Byte) (hv : validUtf8 s = true) :
+    validUtf8 (truncated cap s) = true := (truncated_spec cap s hv).2.2.1
+
+/-- the name member's bytes are read as the truncated text (`name_field` as a `ReadsAs` fact) -/
+theorem name_readsAs (key : List Byte) (ser : SerMode) (s : List Byte)
+    (hv : validUtf8 s = true) (hl : s.length < 4294967296) :
+    ReadsAs ⟨key, [], false, .trunc 64 3, ser⟩ (.leaf (.str none)) (encText s) (some (.text (truncated 64 s))) :=
+  fun i x cur h => name_field key ser i s x cur hv hl h
+
+/-- the name member on the wire, holding the text `s` -/
+def nameEnt (i : Nat) (key : List Byte) (ser : SerMode) (s : List Byte) : Ent :=
+  ⟨i, ⟨key, [], false, .trunc 64 3, ser⟩, .leaf (.str none), encText s, some (.text (truncated 64 s))⟩
+
+theorem knownOf_append (a b : List TEnt) : knownOf (a ++ b) = knownOf a ++ knownOf b := by
+  induction a with
+  | nil => rfl
+  | cons e rest ih => cases e <;> simp [knownOf, ih]
+
+theorem setAll_eq_foldl (ents : List Ent) (st : DSlots) :
+    setAll ents st = (ents.map (fun e => (e.idx, e.out))).foldl (fun s p => s.set p.1 (some p.2)) st := by
+  simp only [setAll, List.foldl_map]
+
+theorem setAll_congr (e₁ e₂ : List Ent) (st : DSlots)
+    (h : e₁.map (fun e => (e.idx, e.out)) = e₂.map (fun e => (e.idx, e.out))) : setAll e₁ st = setAll e₂ st := by
+  rw [setAll_eq_foldl, setAll_eq_foldl, h]
+
+/-- the entries of an entity map with the name member somewhere in it -/
+def withName (pre post : List TEnt) (i : Nat) (key : List Byte) (ser : SerMode) (s : List Byte) : List TEnt :=
+  pre ++ [.known (nameEnt i key ser s)] ++ post
+
+theorem withName_length (pre post : List TEnt) (i : Nat) (key : List Byte) (ser : SerMode) (s : List Byte) :
+    (withName pre post i key ser s).length = pre.length + 1 + post.length := by
+  simp [withName]; omega
+
+theorem withName_known_proj (pre post : List TEnt) (i : Nat) (key : List Byte) (ser : SerMode) (s : List Byte)
+    (hv : validUtf8 s = true) :
+    (knownOf (withName pre post i key ser (truncated 64 s))).map (fun e => (e.idx, e.out)) =
+    (knownOf (withName pre post i key ser s)).map (fun e => (e.idx, e.out)) := by
+  simp only [withName, knownOf_append, knownOf, List.map_append, List.map_cons, List.map_nil, nameEnt,
+    truncated_idem 64 s hv]
+
+/-- **An entity with a name of any length** (members in any order, unknown members interleaved):
+    the result is given by the known members, the name's slot holding the truncated text. -/
+theorem entity_with_long_name (fs : Fields) (pre post : List TEnt) (i : Nat) (key : List Byte) (ser : SerMode)
+    (s r : Input) (hv : validUtf8 s = true) (hl : s.length < 4294967296)
+    (hnth : fs.nth i = some (⟨key, [], false, .trunc 64 3, ser⟩, .leaf (.str none)))
+    (hkv : validUtf8 key = true) (hkl : key.length < 4294967296)
+    (hfresh : keyFreshBefore ⟨key, [], false, .trunc 64 3, ser⟩ fs i = true)
+    (hknown : ∀ e ∈ knownOf (pre ++ post), fs.nth e.idx = some (e.f, e.t) ∧ ReadsAs e.f e.t e.bytes e.out ∧
+        validUtf8 e.f.key = true ∧ e.f.key.length < 4294967296 ∧ keyFreshBefore e.f fs e.idx = true)
+    (hunk : ∀ n x, TEnt.unknown n x ∈ pre ++ post → validUtf8 n = true ∧ n.length < 4294967296 ∧
+        okItem x = true ∧ matchesAny fs 0 (.name n) = false)
+    (hnd : ((knownOf (withName pre post i key ser s)).map (·.idx)).Nodup)
+    (hn : pre.length + 1 + post.length < 4294967296) :
+    decode (.text fs) (encHead 5 (pre.length + 1 + post.length) ++
+        (stepsBytes ((withName pre post i key ser s).map TEnt.step) ++ r)) =
+      (if requiredOk fs (setAll (knownOf (withName pre post i key ser s)) (List.replicate fs.length none)) then
+         .ok (.record ((setAll (knownOf (withName pre post i key ser s)) (List.replicate fs.length none)).map Option.join), r)
+       else .error .missing) := by
+  have h := text_message fs (withName pre post i key ser s) r ?_ ?_ hnd (by rw [withName_length]; exact hn)
+  · rw [withName_length] at h; exact h
+  · intro e he
+    simp only [withName, knownOf_append, knownOf, List.mem_append, List.mem_cons, List.not_mem_nil, or_false] at he
+    rcases he with (he | rfl) | he
+    · exact hknown e (by simp [knownOf_append, he])
+    · exact ⟨hnth, name_readsAs key ser s hv hl, hkv, hkl, hfresh⟩
+    · exact hknown e (by simp [knownOf_append, he])
+  · intro n x hx
+    simp only [withName, List.mem_append, List.mem_cons, List.not_mem_nil, or_false, reduceCtorEq] at hx
+    rcases hx with hx | hx
+    · exact hunk n x (by simp [hx])
+    · exact hunk n x (by simp [hx])
+
+/-- **G-PREFIX for an entity.**  Decoding the entity with the name `s` gives exactly what decoding
+    it with the name cut beforehand gives — whatever precedes or follows the name. -/
+theorem long_name_changes_nothing_else (fs : Fields) (pre post : List TEnt) (i : Nat) (key : List Byte) (ser : SerMode)
+    (s r : Input) (hv : validUtf8 s = true) (hl : s.length < 4294967296)
+    (hnth : fs.nth i = some (⟨key, [], false, .trunc 64 3, ser⟩, .leaf (.str none)))
+    (hkv : validUtf8 key = true) (hkl : key.length < 4294967296)
+    (hfresh : keyFreshBefore ⟨key, [], false, .trunc 64 3, ser⟩ fs i = true)
+    (hknown : ∀ e ∈ knownOf (pre ++ post), fs.nth e.idx = some (e.f, e.t) ∧ ReadsAs e.f e.t e.bytes e.out ∧
+        validUtf8 e.f.key = true ∧ e.f.key.length < 4294967296 ∧ keyFreshBefore e.f fs e.idx = true)
+    (hunk : ∀ n x, TEnt.unknown n x ∈ pre ++ post → validUtf8 n = true ∧ n.length < 4294967296 ∧
+        okItem x = true ∧ matchesAny fs 0 (.name n) = false)
+    (hnd : ((knownOf (withName pre post i key ser s)).map (·.idx)).Nodup)
+    (hn : pre.length + 1 + post.length < 4294967296) :
+    decode (.text fs) (encHead 5 (pre.length + 1 + post.length) ++
+        (stepsBytes ((withName pre post i key ser s).map TEnt.step) ++ r)) =
+    decode (.text fs) (encHead 5 (pre.length + 1 + post.length) ++
+        (stepsBytes ((withName pre post i key ser (truncated 64 s)).map TEnt.step) ++ r)) := by
+  have hv' := truncated_valid 64 s hv
+  have hl' : (truncated 64 s).length < 4294967296 := by
+    have := (truncated_spec 64 s hv).2.1; omega
+  have hproj := withName_known_proj pre post i key ser s hv
+  have hidx : (knownOf (withName pre post i key ser (truncated 64 s))).map (·.idx) =
+      (knownOf (withName pre post i key ser s)).map (·.idx) := by
+    have := congrArg (List.map Prod.fst) hproj
+    simpa [List.map_map, Function.comp_def] using this
+  rw [entity_with_long_name fs pre post i key ser s r hv hl hnth hkv hkl hfresh hknown hunk hnd hn,
+      entity_with_long_name fs pre post i key ser (truncated 64 s) r hv' hl' hnth hkv hkl hfresh hknown hunk
+        (by rw [hidx]; exact hnd) hn,
+      setAll_congr _ _ _ hproj]
+
+/-- a member read by its type's own reader (`Mode.plain`): what the type's decoder makes of the bytes -/
+theorem readsAs_plain_of_decode (f : FieldInfo) (t : Ty) (b : List Byte) (v : Val) (hm : f.mode = .plain)
+    (h : ∀ x, decode t (b ++ x) = .ok (v, x)) : ReadsAs f t b (some v) := by
+  intro i x cur hun
+  unfold fieldValue
+  simp only [hun, hm, Mode.acceptsNull, Bool.false_and, Bool.false_eq_true, if_false, h, Mode.apply]
+
+/-- bytes of an entity map holding the name `s` -/
+def entityBytes (pre post : List TEnt) (i : Nat) (key : List Byte) (ser : SerMode) (s : List Byte) : List Byte :=
+  encHead 5 (pre.length + 1 + post.length) ++ stepsBytes ((withName pre post i key ser s).map TEnt.step)
+
+/-- the entity as a member (index `j`) of an integer-keyed request map -/
+def entityEnt (j : Nat) (uf : FieldInfo) (fs : Fields) (pre post : List TEnt) (i : Nat) (key : List Byte) (ser : SerMode)
+    (s : List Byte) : Ent :=
+  ⟨j, uf, .text fs, entityBytes pre post i key ser s,
+   some (.record ((setAll (knownOf (withName pre post i key ser s)) (List.replicate fs.length none)).map Option.join))⟩
+
+/-- **G-PREFIX for a whole request.**  A parameter map (MakeCredential, the credential-management
+    parameters, …) whose entity member carries a name of any length — the entity complete, its
+    members and the request's parameters in any order — decodes to exactly what the same request
+    decodes to with the name cut beforehand. -/
+theorem request_with_long_name (off : Nat) (rfs : Fields) (rpre rpost : List Ent) (j : Nat) (uf : FieldInfo)
+    (fs : Fields) (pre post : List TEnt) (i : Nat) (key : List Byte) (ser : SerMode)
+    (s r : Input) (hv : validUtf8 s = true) (hl : s.length < 4294967296)
+    (hm : uf.mode = .plain) (hnthU : rfs.nth j = some (uf, .text fs))
+    (hnth : fs.nth i = some (⟨key, [], false, .trunc 64 3, ser⟩, .leaf (.str none)))
+    (hkv : validUtf8 key = true) (hkl : key.length < 4294967296)
+    (hfresh : keyFreshBefore ⟨key, [], false, .trunc 64 3, ser⟩ fs i = true)
+    (hknown : ∀ e ∈ knownOf (pre ++ post), fs.nth e.idx = some (e.f, e.t) ∧ ReadsAs e.f e.t e.bytes e.out ∧
+        validUtf8 e.f.key = true ∧ e.f.key.length < 4294967296 ∧ keyFreshBefore e.f fs e.idx = true)
+    (hunk : ∀ n x, TEnt.unknown n x ∈ pre ++ post → validUtf8 n = true ∧ n.length < 4294967296 ∧
+        okItem x = true ∧ matchesAny fs 0 (.name n) = false)
+    (hnd : ((knownOf (withName pre post i key ser s)).map (·.idx)).Nodup)
+    (hn : pre.length + 1 + post.length < 4294967296)
+    (hcomplete : requiredOk fs (setAll (knownOf (withName pre post i key ser s)) (List.replicate fs.length none)) = true)
+    (hnthR : ∀ e ∈ rpre ++ rpost, rfs.nth e.idx = some (e.f, e.t))
+    (hreadsR : ∀ e ∈ rpre ++ rpost, ReadsAs e.f e.t e.bytes e.out)
+    (hndR : ((rpre ++ [entityEnt j uf fs pre post i key ser s] ++ rpost).map (·.idx)).Nodup)
+    (hoff : off + rfs.length < 18446744073709551616)
+    (hnR : (rpre ++ [entityEnt j uf fs pre post i key ser s] ++ rpost).length < 4294967296) :
+    decode (.indexed off rfs)
+        (encHead 5 (rpre ++ [entityEnt j uf fs pre post i key ser s] ++ rpost).length ++
+          (((rpre ++ [entityEnt j uf fs pre post i key ser s] ++ rpost).map (fun e => keyIdx off e.idx e.f ++ e.bytes)).flatten ++ r)) =
+    decode (.indexed off rfs)
+        (encHead 5 (rpre ++ [entityEnt j uf fs pre post i key ser (truncated 64 s)] ++ rpost).length ++
+          (((rpre ++ [entityEnt j uf fs pre post i key ser (truncated 64 s)] ++ rpost).map (fun e => keyIdx off e.idx e.f ++ e.bytes)).flatten ++ r)) := by
+  have hv' := truncated_valid 64 s hv
+  have hl' : (truncated 64 s).length < 4294967296 := by
+    have := (truncated_spec 64 s hv).2.1; omega
+  have hproj := withName_known_proj pre post i key ser s hv
+  have hidx : (knownOf (withName pre post i key ser (truncated 64 s))).map (·.idx) =
+      (knownOf (withName pre post i key ser s)).map (·.idx) := by
+    have := congrArg (List.map Prod.fst) hproj
+    simpa [List.map_map, Function.comp_def] using this
+  have hset := setAll_congr _ _ (List.replicate fs.length none) hproj
+  -- the entity member is read as the same record in both messages
+  have hreadE : ∀ s', validUtf8 s' = true → s'.length < 4294967296 →
+      ((knownOf (withName pre post i key ser s')).map (·.idx)).Nodup →
+      requiredOk fs (setAll (knownOf (withName pre post i key ser s')) (List.replicate fs.length none)) = true →
+      ReadsAs uf (.text fs) (entityBytes pre post i key ser s') (entityEnt j uf fs pre post i key ser s').out := by
+    intro s' hvs hls hnds hreq
+    apply readsAs_plain_of_decode uf (.text fs) _ _ hm
+    intro x
+    have := entity_with_long_name fs pre post i key ser s' x hvs hls hnth hkv hkl hfresh hknown hunk hnds hn
+    simp only [hreq, if_true] at this
+    simpa only [entityBytes, List.append_assoc] using this
+  have hout : (entityEnt j uf fs pre post i key ser (truncated 64 s)).out = (entityEnt j uf fs pre post i key ser s).out := by
+    simp only [entityEnt, hset]
+  have hmsg : ∀ s', validUtf8 s' = true → s'.length < 4294967296 →
+      ((knownOf (withName pre post i key ser s')).map (·.idx)).Nodup →
+      requiredOk fs (setAll (knownOf (withName pre post i key ser s')) (List.replicate fs.length none)) = true →
+      ((rpre ++ [entityEnt j uf fs pre post i key ser s'] ++ rpost).map (·.idx)).Nodup →
+      (rpre ++ [entityEnt j uf fs pre post i key ser s'] ++ rpost).length < 4294967296 → _ :=
+    fun s' hvs hls hnds hreq hndr hnr =>
+      indexed_message off rfs (rpre ++ [entityEnt j uf fs pre post i key ser s'] ++ rpost) r
+        (by intro e he
+            simp only [List.mem_append, List.mem_cons, List.not_mem_nil, or_false] at he
+            rcases he with (he | rfl) | he
+            · exact hnthR e (by simp [he])
+            · exact hnthU
+            · exact hnthR e (by simp [he]))
+        (by intro e he
+            simp only [List.mem_append, List.mem_cons, List.not_mem_nil, or_false] at he
+            rcases he with (he | rfl) | he
+            · exact hreadsR e (by simp [he])
+            · exact hreadE s' hvs hls hnds hreq
+            · exact hreadsR e (by simp [he]))
+        hndr hoff hnr
+  have hidxR : (rpre ++ [entityEnt j uf fs pre post i key ser (truncated 64 s)] ++ rpost).map (·.idx) =
+      (rpre ++ [entityEnt j uf fs pre post i key ser s] ++ rpost).map (·.idx) := by
+    simp [entityEnt]
+  have hprojR : (rpre ++ [entityEnt j uf fs pre post i key ser (truncated 64 s)] ++ rpost).map (fun e => (e.idx, e.out)) =
+      (rpre ++ [entityEnt j uf fs pre post i key ser s] ++ rpost).map (fun e => (e.idx, e.out)) := by
+    simp only [List.map_append, List.map_cons, List.map_nil, hout]
+    simp [entityEnt]
+  rw [hmsg s hv hl hnd hcomplete hndR hnR,
+      hmsg (truncated 64 s) hv' hl' (by rw [hidx]; exact hnd) (by rw [hset]; exact hcomplete)
+        (by rw [hidxR]; exact hndR) (by simpa using hnR),
+      setAll_congr _ _ _ hprojR]
+
+/-! non-vacuity of the message-level statements: a user entity `{id: h'0102', name: 63×"a" "é" "b", zz: 1}`
+    (the cut at 64 falls inside "é") meets every hypothesis of `long_name_changes_nothing_else` -/
+section NonVacuous
+open Spec
+private def ufs : Fields := Fields.ofList [
+  treq "id" (bstrMax 64),
+  (⟨ascii "icon", [], false, .skipLong 128, .skipNone⟩, tstr),
+  truncName "name",
+  truncName "displayName"]
+private def longName : List Byte := List.replicate 63 0x61 ++ [0xc3, 0xa9, 0x62]
+private def idEnt : Ent :=
+  ⟨0, (treq "id" (bstrMax 64)).1, bstrMax 64, encode (bstrMax 64) (.bytes [1, 2]), some (.bytes [1, 2])⟩
+private theorem idEnt_reads : ReadsAs idEnt.f idEnt.t idEnt.bytes idEnt.out :=
+  readsAs_encode idEnt.f idEnt.t (leaf_bytes_rt (some 64)) (by decide) (some (.bytes [1, 2])) (by constructor <;> decide)
+example : Spec.userEntity = .text ufs := rfl
+example : decode Spec.userEntity (encHead 5 3 ++
+      (stepsBytes ((withName [.known idEnt] [.unknown (ascii "zz") (.atom 0 1 [])] 2 (ascii "name") .skipNone longName).map TEnt.step) ++ [])) =
+    decode Spec.userEntity (encHead 5 3 ++
+      (stepsBytes ((withName [.known idEnt] [.unknown (ascii "zz") (.atom 0 1 [])] 2 (ascii "name") .skipNone (truncated 64 longName)).map TEnt.step) ++ [])) :=
+  long_name_changes_nothing_else ufs [.known idEnt] [.unknown (ascii "zz") (.atom 0 1 [])] 2 (ascii "name") .skipNone longName []
+    (by decide) (by decide) (by decide) (by decide) (by decide) (by decide)
+    (by intro e he
+        simp only [List.cons_append, List.nil_append, knownOf, List.mem_cons, List.not_mem_nil, or_false] at he
+        subst he
+        exact ⟨by decide, idEnt_reads, by decide, by decide, by decide⟩)
+    (by intro n x hx
+        simp only [List.cons_append, List.nil_append, List.mem_cons, reduceCtorEq, false_or, List.not_mem_nil, or_false,
+          TEnt.unknown.injEq] at hx
+        obtain ⟨rfl, rfl⟩ := hx
+        exact ⟨by decide, by decide, by decide, by decide⟩)
+    (by decide) (by decide)
+end NonVacuous
 
 /-! #### icons -/
 
